@@ -87,16 +87,19 @@ def gen(rng, tier, index):
     return {"kind": "history", "problem": spec, "cfg": cfg, "stops": stops, "reduce_maxcor": reduce_to, "_ints": ["reduce_maxcor"]}
 
 
-def dense_inverse_bfgs(sk, yk):
-    """Dense matrix of the operator: two-loop recursion from the identity, long double."""
+def dense_inverse_bfgs(sk, yk, rho_op=None):
+    """Dense matrix of the operator: two-loop recursion from the identity, long double.
+
+    ``rho_op``: the operator's own 1/(s.y) (part of its definition: when s.y is the outcome of a
+    cancellation, a more accurate product would describe another operator)."""
     ld = np.longdouble
     n = sk.shape[1]
     h = np.eye(n, dtype=ld)
     big = 1.0
-    for s, y in zip(sk, yk):
+    for i, (s, y) in enumerate(zip(sk, yk)):
         s = s.astype(ld)
         y = y.astype(ld)
-        rho = 1.0 / (y @ s)
+        rho = 1.0 / (y @ s) if rho_op is None else ld(rho_op[i])
         v = np.eye(n, dtype=ld) - rho * np.outer(s, y)
         h = v @ h @ v.T + rho * np.outer(s, s)
         big = max(big, float(np.max(np.abs(h))), float(abs(rho) * np.max(np.abs(np.outer(s, y)))) ** 2)
@@ -118,7 +121,10 @@ def check_operator(hi, n, stats, add, where):
     sy = np.sum(sk * yk, axis=1)
     if not (sy > 0).all():
         return  # reported by the curvature clause
-    h, big = dense_inverse_bfgs(sk, yk)
+    rho_op = getattr(hi, "rho", None)
+    if rho_op is not None and (np.shape(rho_op) != (sk.shape[0],) or not np.all(np.isfinite(rho_op))):
+        rho_op = None
+    h, big = dense_inverse_bfgs(sk, yk, rho_op)
     h64 = np.array(h, dtype=float)
     if not np.all(np.isfinite(h64)) or big > 1e12 * max(1.0, float(np.max(np.abs(h64)))):
         stats["nj.ill_conditioned"] += 1
